@@ -87,6 +87,10 @@ class PrefetchIterator:
       try:
         item = next(self._data_iter)
         with self._cond:
+          if not self._active:
+            # Closed while the source was producing this item: the consumer
+            # may already have seen StopIteration, so nothing more is delivered.
+            return
           self._buffer.append(item)
           self._cond.notify_all()
           self._cond.wait_for(_predicate)
